@@ -157,7 +157,14 @@ impl Cfg {
             }
             _ => r.range(0, 9) as usize,
         };
-        Cfg { codec: r.pick(&["string", "bytes", "bincode"]).to_string(), comp, level, batch, feed: r.chance(1, 2), count, size_class: r.below(5) }
+        let mut cfg = Cfg { codec: r.pick(&["string", "bytes", "bincode"]).to_string(), comp, level, batch, feed: r.chance(1, 2), count, size_class: r.below(5) };
+        if r.chance(1, 12) {
+            // a few large items (130-190 KB each, beyond the block sizes of the compression
+            // libraries' stream buffers); at most 3 so that a batch stays under the frame limit
+            cfg.size_class = 5;
+            cfg.count = cfg.count.clamp(1, 3);
+        }
+        cfg
     }
 }
 
@@ -167,6 +174,7 @@ fn payload_len(r: &mut Rng, class: u64) -> usize {
         1 => r.below(4) as usize,
         2 => r.below(200) as usize,
         3 => 2000 + r.below(3000) as usize,
+        5 => 131_000 + r.below(60_000) as usize,
         _ => r.below(40) as usize,
     }
 }
